@@ -48,7 +48,8 @@
 (*                     so MoveDecorative never sets it aside; it can never be evaluated *)
 (*                     once-through (time-zero passes, decorative pass)               *)
 (*   prod u v  `x = u * v`    quo u v  `x = u / v`  (divisor; systems in which the    *)
-(*                     divisor is 0 in some period are not generated; the spec reads  *)
+(*                     divisor is 0 in some period k >= 1 are not generated - at k = 0 *)
+(*                     it may be, see Close mode "zero"; the spec reads               *)
 (*                     `/` as truncating integer division - any function of the two   *)
 (*                     operand values serves the invariants - and the trace spec does *)
 (*                     not compare observed quotients with Sol)                       *)
@@ -147,19 +148,29 @@ HasIC(sys, x)  == x \in DOMAIN sys.ics /\ sys.ics[x] # NoIC
 (* This is at once: pass 3 / pass 4 of SetInitialConditions (`known` = time_zero_constants), *)
 (* the exact limit of the Jacobi sweeps of an acyclic block, and the retry loop over the     *)
 (* decorative equations.                                                                     *)
-(* `solving` = the equations are iterated (Jacobi sweeps), so an equation may read its own        *)
-(* variable; FALSE = they are evaluated once-through, where reading oneself is a NameError.         *)
+(* mode "sweep" = the equations are iterated (Jacobi sweeps), so an equation may read its own       *)
+(*               variable;                                                                          *)
+(*      "once"  = they are evaluated once-through (decorative pass of a period), where reading      *)
+(*               oneself is a NameError;                                                            *)
+(*      "zero"  = the time-zero passes 3 and 4: once-through, and an equation whose inputs are all  *)
+(*               known but which fails ARITHMETICALLY (zero divisor) is stepped over like one with  *)
+(*               an unknown input: its variable keeps its value and does not become a time-zero     *)
+(*               constant - in the pass over the solved block and in the pass over the set-aside    *)
+(*               variables alike.                                                                   *)
+Fails(d, val) == d.kind = "quo" /\ val[d.v] = 0
 RECURSIVE Close(_, _, _, _, _)
-Close(eqs, val, known, fuel, solving) ==
-    LET Needs(i) == IF solving THEN Names(eqs[i].def) \ {eqs[i].var} ELSE Names(eqs[i].def)
-        ready == { i \in 1..Len(eqs) : eqs[i].var \notin known /\ Needs(i) \subseteq known }
+Close(eqs, val, known, fuel, mode) ==
+    LET Needs(i) == IF mode = "sweep" THEN Names(eqs[i].def) \ {eqs[i].var} ELSE Names(eqs[i].def)
+        ready == { i \in 1..Len(eqs) : /\ eqs[i].var \notin known
+                                       /\ Needs(i) \subseteq known
+                                       /\ ~(mode = "zero" /\ Fails(eqs[i].def, val)) }
     IN IF fuel = 0 \/ ready = {} THEN [val |-> val, known |-> known]
        ELSE LET got == { eqs[i].var : i \in ready }
                 val2 == [x \in DOMAIN val |->
                            IF x \in got
                            THEN Den(eqs[CHOOSE i \in ready : eqs[i].var = x].def, val)
                            ELSE val[x]]
-            IN Close(eqs, val2, known \cup got, fuel - 1, solving)
+            IN Close(eqs, val2, known \cup got, fuel - 1, mode)
 
 (* k = 0: SetInitialConditions *)
 Sol0(sys) ==
@@ -171,8 +182,8 @@ Sol0(sys) ==
                  ELSE IF x \in exos THEN sys.exo[ExoOf(sys, x)].p[1]
                  ELSE IF HasIC(sys, x) THEN sys.ics[x] ELSE 0]
         k2 == { x \in vars : HasIC(sys, x) } \cup exos \cup {K}
-        r3 == Close(sys.endo, v2, k2, Len(sys.endo), FALSE)          \* pass 3
-        r4 == Close(sys.deco, r3.val, r3.known, Len(sys.deco), FALSE)    \* pass 4
+        r3 == Close(sys.endo, v2, k2, Len(sys.endo), "zero")          \* pass 3
+        r4 == Close(sys.deco, r3.val, r3.known, Len(sys.deco), "zero")    \* pass 4
     IN r4.val
 
 (* _SolveStep: one period, with k = kval and the exogenous variables at index ei of their paths *)
@@ -185,8 +196,8 @@ SolStep(sys, prev, kval, ei) ==
                    ELSE IF x \in exos THEN sys.exo[ExoOf(sys, x)].p[ei]
                    ELSE IF x \in lags THEN prev[sys.lagged[LagOf(sys, x)].src]
                    ELSE Poison]
-        rE == Close(sys.endo, base, exos \cup lags \cup {K}, Len(sys.endo), TRUE)
-        rD == Close(sys.deco, rE.val, rE.known, Len(sys.deco), FALSE)
+        rE == Close(sys.endo, base, exos \cup lags \cup {K}, Len(sys.endo), "sweep")
+        rD == Close(sys.deco, rE.val, rE.known, Len(sys.deco), "once")
     IN rD.val
 
 (* k >= 1 of the ordinary solve *)
@@ -229,14 +240,14 @@ SolOpt(sys, ss, k) == SolOptWith(sys, ss, k, SteadyT)
 (* in particular the alias cycles  a = b; b = a  the parser's documentation forbids and the   *)
 (* reducing parser answers with 'Equality loop').  Bound of the instance, not of the code:     *)
 (* squares / products and lags are not mixed, so that no value is squared once per period and  *)
-(* everything stays far inside TLC's 32-bit integers; and no divisor is 0 in any period the     *)
-(* driver solves (0..Horizon; at k = 0 also not among the values the time-zero passes leave     *)
-(* at 0.), because a division by zero makes both real runs raise.                               *)
+(* everything stays far inside TLC's 32-bit integers; and no divisor is 0 in a period k >= 1    *)
+(* the driver solves (1..Horizon), because a persistent division by zero makes both real runs   *)
+(* raise.  A divisor that is 0 at k = 0 only (t, k, 2*t, an alias of t ...) IS generated.        *)
 Horizon == 3
 WellPosed(sys, alldefs) ==
     LET vars == SysVars(sys)
         base == [x \in vars \cup {K} |-> 0]
-        r == Close(sys.endo, base, SeqVars(sys.exo) \cup SeqVars(sys.lagged) \cup {K}, Len(sys.endo), TRUE)
+        r == Close(sys.endo, base, SeqVars(sys.exo) \cup SeqVars(sys.lagged) \cup {K}, Len(sys.endo), "sweep")
     IN /\ \A x \in DOMAIN alldefs : Names(alldefs[x]) \subseteq vars \cup {K}
        /\ SeqVars(sys.endo) \subseteq r.known
        /\ (\E x \in DOMAIN alldefs : alldefs[x].kind \in {"sq", "nsq", "prod"}) => sys.lagged = << >>
@@ -246,7 +257,7 @@ WellPosed(sys, alldefs) ==
        /\ (\E x \in DOMAIN alldefs : alldefs[x].kind = "quo") =>
              LET so == SolUpTo(sys, Horizon)
              IN \A x \in DOMAIN alldefs : alldefs[x].kind = "quo" =>
-                   \A k \in 0..Horizon : so[k + 1][alldefs[x].v] # 0
+                   \A k \in 1..Horizon : so[k + 1][alldefs[x].v] # 0
 
 ----------------------------------------------------------------------------
 VARIABLES phase,    \* "parse" | "find" | "move" | "loop" | "done" | "solved" | "error"
